@@ -130,3 +130,6 @@ func VerifModel_url_URL_ResolveReference(u *url.URL, ref *url.URL) *url.URL {
 	r.Fragment = ref.Fragment
 	return &r
 }
+
+// QueryOfURL is u.Query() (registered decoding under the executor).
+func QueryOfURL(u *url.URL) url.Values { return u.Query() }
